@@ -130,7 +130,7 @@ CLAIMED["C13"] = ("model_checking",
     "elements under ASan (exact-size allocator blocks, so out-of-bounds accesses are events no action matches); "
     "SeqTrace.tla compares size, empty, front/back, indexing, forward and backward iteration and == with the spec "
     "state. Random histories up to length 5000.",
-    "bounds: lengths <=6 (+ second variable <=1) exhaustively, values {0,1,2}; sampled to length 300-5000; small_vector with N in {1,4}",
+    "bounds: lengths <=6 (+ second variable <=1) exhaustively, values {0,1,2}; sampled to length 300-5000; small_vector with N in {1,4}; one known finding (resize / rvalue push whose argument is an element of the growing container) is listed in known_findings.jsonl",
     "TLA+ abstract sequence spec + TLC closed graph; transitions replayed into the real containers; observers validated by TLC",
     "Seq", "5 C13")
 
